@@ -17,12 +17,12 @@ PROFILES = {
             'q_w': [10, 1, 0.5, 0.2, 0.2, 0.05, 0.5, 2], 'long': True},
     'C03': {'op_w': dict(BASE_OPS, transfer=10, fill_to=4, dilute=2.5, new_container=3, drain_fresh=0.4),
             'q_w': [3, 2, 1.5, 2, 2, 1, 0.5, 1.5], 'fill_w': [4, 2, 1, 1, 1.5, 1, 1, 1.5, 0.4, 0.4],
-            'cap_w': [1, 4, 2, 2, 1.5, 0.6], 'dil_w': [5, 2, 3, 0.3, 3]},
+            'cap_w': [1, 4, 2, 2, 1.5, 0.6], 'dil_w': [5, 2, 3, 0.3, 3], 'sci_notation': True},
     'C04': {'op_w': dict(BASE_OPS, hold_slice=1.5, remove=3, fill_to=3, dilute=2.5, solution=1.5), 'stale_p': 0.3, 'dil_w': [6, 2, 1.5, 1.5, 1]},
-    'C07': {'op_w': dict(BASE_OPS, transfer=12, remove=3, fill_to=3, dilute=0.3, new_plate=0.6, solution=0.3, solution_from=0.1),
+    'C07': {'op_w': dict(BASE_OPS, transfer=12, remove=3, fill_to=3, dilute=0.3, new_plate=0.6, solution=0.3, solution_from=0.1, series=0.4),
             'form_w': [0.5, 4, 3, 3, 3, 4, 0.8], 'same_plate_p': 0.35},
     'C10': {'op_w': dict(BASE_OPS, remove=3, fill_to=3, dilute=2, solution=1.5), 'long': True},
-    'C11': {'op_w': dict(BASE_OPS, transfer=5, fill_to=7, dilute=8, solution=1.5, new_container=2.5), 'kind_w': [4, 3, 3], 'p_trace': 0.2},
+    'C11': {'op_w': dict(BASE_OPS, transfer=5, fill_to=7, dilute=8, solution=1.5, new_container=2.5, series=0.5), 'kind_w': [4, 3, 3], 'p_trace': 0.2},
     'C17': {'op_w': dict(BASE_OPS, remove=8, transfer=6, new_container=2.5), 'kind_w': [3, 3, 3]},
     'C19': {'op_w': dict(BASE_OPS, new_container=3, fill_to=3, dilute=2.5, solution=1.5, solution_from=0.8)},
 }
